@@ -3,14 +3,16 @@
 What a solver-driven check can reach is the SOURCES of nondeterminism as inputs:
 a. random draws: random.choices (used for '_cond_<10 letters>' / '_filt_<10 letters>' names) is
    stubbed to return a harness-chosen string;
-b. set iteration order (stands for hash randomisation): every set()/frozenset() CALL in the sigma
-   modules creates a set whose iteration order is chosen by the harness (stubs/permset.py), and the
-   regex flag sets of loaded rules are replaced by such sets.
+b. set iteration order (stands for hash randomisation): the sigma modules are loaded from their real
+   source through an import hook (stubs/permset.py) that binds the names set/frozenset to
+   order-permuting subclasses before the module body runs and rewrites set displays / comprehensions
+   into set([...]) calls (purely syntactic, meaning-preserving), so EVERY set the library source
+   creates iterates in an order chosen by the harness; the regex flag sets of loaded rules (created
+   by enum flag code) are replaced by such sets.
 Symbolic selectors: iteration-order mode (4), draw (4), corpus item (12).  Each path runs one corpus
 item (rules + pipelines + filters + correlations + validators + error cases) with the real code and
 compares queries AND error texts with the baseline (mode 0, draw 0); internal identifiers must not
-appear in any output.  An AST scan of /repo/sigma lists set displays / comprehensions and
-list(set(...)) patterns that the stub cannot intercept.
+appear in any output.  The evidence lists how many set displays / comprehensions were rewritten.
 Real interpreter hash randomisation and separate process starts are OUTSIDE the solver's reach; a
 plain subprocess cross-check with three PYTHONHASHSEED values is run as a self-check of the model.
 """
@@ -22,6 +24,13 @@ import sys
 
 from vlib.obl import Ob
 from vlib.params import P, concrete_section, fin, sel
+
+HOOKED = os.environ.get("VERIF_C20_REALSETS") != "1"
+if HOOKED:
+    # before any sigma module is imported in this process: load them through the set-rewriting import hook
+    from stubs import permset as _permset
+
+    _permset.install_import_hook()
 
 PROPERTY = "C20"
 TARGETS = [
@@ -38,13 +47,13 @@ TARGETS = [
     "sigma.validation:SigmaValidator.validate_rules",
 ]
 BOUNDS = {
-    "modelled sources": "4 (quick) / 8 (thorough) iteration orders of every set created by a set()/frozenset() call in sigma.* and of regex flag sets; 4 draws of random.choices",
-    "corpus": "12 items: one-to-many field mappings (incl. repeated targets and nested pipelines), add_condition, filters, regex flags with supported/unsupported flags, correlation rule fields with and without group-by, error texts (unknown correlation condition keys, unreferenced pipeline conditions, strict field mapping failure, collection errors), validator issue texts",
-    "outside": "actual PYTHONHASHSEED randomisation / process starts (only the 3-seed subprocess self-check); set displays and comprehensions (reported by the AST scan, not permuted)",
+    "modelled sources": "4 (quick) / 8 (thorough) iteration orders of every set created by the source of sigma.* (set()/frozenset() calls, default_factory=set, set displays and comprehensions via the import hook) and of regex flag sets; 4 draws of random.choices",
+    "corpus": "14 items: several deferred query parts, hash field splitting incl. its error text, one-to-many field mappings (incl. repeated targets and nested pipelines), add_condition, filters, regex flags with supported/unsupported flags, correlation rule fields with and without group-by, error texts (unknown correlation condition keys, unreferenced pipeline conditions, strict field mapping failure, collection errors), validator issue texts",
+    "outside": "actual PYTHONHASHSEED randomisation / process starts (only the 3-seed subprocess self-check, run with ordinary sets); sets created inside C code or third-party libraries (dict views, pyparsing, yaml); other orders than the 4 / 8 modelled ones",
 }
 ASSUMPTIONS = [
     "the draws of one run are pairwise distinct (a collision of two 10-letter draws has probability 26^-10 and is outside the model)",
-    "stub: names set/frozenset in every sigma.* module namespace -> order-permuting subclasses; random.choices -> fixed strings",
+    "stub: names set/frozenset in every sigma.* module namespace -> order-permuting subclasses (bound before the module body runs); set displays/comprehensions rewritten to set([...]) at import; random.choices -> fixed strings",
     "a real set may iterate in any order, so every permuted order is a legitimate execution",
 ]
 
@@ -158,6 +167,23 @@ def corpus(item: int):
         coll = SigmaCollection.from_dicts(copy.deepcopy(DOCS))
         v = SigmaValidator(set(all_validator_classes()))
         return sorted(str(i) for i in v.validate_rules(iter(coll.rules)))
+    if item == 12:  # several deferred query parts in one query
+        from sigma.backends.test import TextQueryTestBackend
+        from sigma.conversion.deferred import DeferredTextQueryExpression
+
+        class Deferred(DeferredTextQueryExpression):
+            template = '{field}{op}"{value}"'
+            operators = {True: "!=", False: "="}
+            default_field = "_"
+
+        def conv_re(self, cond, state):
+            return Deferred(state, cond.field, TextQueryTestBackend.convert_condition_field_eq_val_re(self, cond, state))
+
+        cls = type("DeferredBackend", (TextQueryTestBackend,), {"re_expression": "{regex}", "re_escape": tuple(), "convert_condition_field_eq_val_re": conv_re})
+        return _conv([_rule(0, {"sel": {"fA|re": "z.*a", "fB|re": "m.*b", "fC|re": "a.*c", "fD": "x"}, "flt": {"fE|re": "q.*"}}, "sel and not flt")], backend=lambda pl: cls(pl, collect_errors=True))
+    if item == 13:  # hash field splitting: queries and the error text listing the valid algorithms
+        pl = {"name": "p", "priority": 1, "transformations": [{"type": "hashes_fields", "valid_hash_algos": ["SHA256", "MD5", "SHA1", "IMPHASH", "SHA512"], "field_prefix": "File", "drop_algo_prefix": False}]}
+        return _conv([_rule(0, {"sel": {"Hashes": ["MD5=4fae81eb7018069e75a087c38af783df", "SHA1=6a4b7de61d9c29d5b2e0ca8a4a2e5a4f8a9b0c1d"]}}), _rule(1, {"sel": {"Hashes": "WHIRLPOOL=00112233"}})], pl)
     # 11: identifiers generated for processing items without id (content hash) and unknown top-level keys
     from sigma.processing.pipeline import ProcessingPipeline
 
@@ -171,7 +197,7 @@ def corpus(item: int):
     return out
 
 
-NITEMS = 12
+NITEMS = 14
 
 
 def run(item: int, mode: int, draw: int):
@@ -194,11 +220,16 @@ def run(item: int, mode: int, draw: int):
         return list((text * 3)[:k])
 
     random.choices = fake
-    permset.install(mode)
+    if HOOKED:
+        permset.MODE[0] = mode  # every set of the library is an order-permuting set already (import hook)
+    else:
+        permset.install(mode)
     try:
         return corpus(item)
     finally:
-        permset.uninstall()
+        if not HOOKED:
+            permset.uninstall()
+        permset.MODE[0] = 0
         random.choices = saved
 
 
@@ -249,12 +280,22 @@ def scan_unmodelled_sets():
     return found
 
 
+def c20_hook_active() -> bool:
+    """Vacuity guard: the library's sets really are order-permuting sets in this process."""
+    from stubs import permset
+    from sigma.processing.pipeline import ProcessingPipeline
+    import sigma.conversion.base as B
+
+    rewritten = sum(n for _, n in permset.REWRITTEN)
+    return HOOKED and rewritten >= 20 and isinstance(ProcessingPipeline().applied_ids, permset.PermSet) and B.__dict__.get("set") is permset.PermSet
+
+
 # ---------------------------------------------------------------- real processes (self-check of the model)
 def c20_subprocess_seeds() -> bool:
     code = "import sys; sys.path.insert(0, '/verif'); from harness.c20 import corpus, NITEMS; import hashlib; print(hashlib.sha256(repr([corpus(i) for i in range(NITEMS) if i not in (2, 3)]).encode()).hexdigest())"
     outs = set()
     for seed in ("0", "1", "4242"):
-        env = dict(os.environ, PYTHONHASHSEED=seed, PYTHONPATH="/verif", PYTHONDONTWRITEBYTECODE="1")
+        env = dict(os.environ, PYTHONHASHSEED=seed, PYTHONPATH="/verif", PYTHONDONTWRITEBYTECODE="1", VERIF_C20_REALSETS="1")
         p = subprocess.run([sys.executable, "-c", code], env=env, capture_output=True, text=True, timeout=300)
         if p.returncode != 0:
             return False
@@ -268,4 +309,5 @@ SELFCHECKS = [
     ("c20_modes", {}, (0, 1, 1), True),
     ("c20_modes", {}, (3, 2, 2), True),
     ("c20_subprocess_seeds", {}, (), True),
+    ("c20_hook_active", {}, (), True),
 ]
